@@ -45,8 +45,6 @@ def install(eng):
     vc.Filter = F
     eng.cls("Filter")
     eng.universe("Filter", F)
-    vc.f_pred = z3.Function("Pred", F.sort(), vc.Target.sort(), z3.BoolSort())
-    eng.fn("Pred")(lambda e, st, f, t: V(T.BOOL, vc.f_pred(f.z, t.z)))
     NF = T.ObjT("NameFilter", root="Filter")
     EF = T.ObjT("EndpointFilter", root="Filter")
     SF = T.ObjT("StatusFilter", root="Filter")
@@ -55,9 +53,33 @@ def install(eng):
     eng.cls("NameFilter", bases=["Filter"], root="Filter", pyname="gwf.filtering:NameFilter", fields={"patterns": LP})
     eng.cls("EndpointFilter", bases=["Filter"], root="Filter", pyname="gwf.filtering:EndpointFilter",
             fields={"endpoints": TS, "mode": T.STR})
-    eng.cls("StatusFilter", bases=["Filter"], root="Filter", pyname="gwf.filtering:StatusFilter")
+    eng.cls("StatusFilter", bases=["Filter"], root="Filter", pyname="gwf.filtering:StatusFilter",
+            fields={"table": T.DictT(vc.Target, vc.Status), "wanted": T.SetT(vc.Status)})
+    eng.classes["Filter"].consts["kind"] = T.INT      # dynamic class: 0 name, 1 endpoint, 2 status, 3 composite
+    f_kind = eng.const_fn("Filter", "kind", T.INT)
+    eng.classes["NameFilter"].alloc_assume = ["self.kind == 0"]
+    eng.classes["EndpointFilter"].alloc_assume = ["self.kind == 1"]
+    eng.classes["StatusFilter"].alloc_assume = ["self.kind == 2"]
+    CT = T.DictT(vc.Target, vc.Status)
+
+    def pred(st, f, t):
+        """what each filter class selects (the classes' predicate()/apply(), verified below per class)"""
+        pats = z3.Select(st.heap[("NameFilter", "patterns")], f)
+        p = vc.Pattern.fresh("p")
+        name_ok = z3.Exists([p], z3.And(z3.Select(LP.elems(pats), p), vc.f_matches(eng.const_fn("Target", "name", vc.Name)(t), p)))
+        ends = z3.Select(st.heap[("EndpointFilter", "endpoints")], f)
+        mode = z3.Select(st.heap[("EndpointFilter", "mode")], f)
+        end_ok = z3.If(mode == z3.StringVal("exclude"), z3.Not(z3.Select(ends, t)), z3.Select(ends, t))
+        tab = z3.Select(st.heap[("StatusFilter", "table")], f)
+        want = z3.Select(st.heap[("StatusFilter", "wanted")], f)
+        st_ok = z3.And(z3.Select(CT.dom(tab), t), z3.Select(want, z3.Select(CT.vals(tab), t)))
+        k = f_kind(f)
+        return z3.If(k == 0, name_ok, z3.If(k == 1, end_ok, z3.If(k == 2, st_ok, z3.BoolVal(True))))
+
+    eng.fn("Pred")(lambda e, st, f, t: V(T.BOOL, pred(st, f.z, t.z)))
     eng.cls("CompositeFilter", bases=["Filter"], root="Filter", pyname="gwf.filtering:CompositeFilter",
             fields={"filters": T.ListV(F)})
+    eng.classes["CompositeFilter"].alloc_assume = ["self.kind == 3"]
     UNIQ = "all(implies(a.name == b.name, a == b) for a in targets for b in targets)"
     S = ["C02", "C05", "C15", "C16", "C17"]
 
@@ -73,6 +95,17 @@ def install(eng):
                  locals={"target_name_map": T.DictT(vc.Name, vc.Target)}, requires=[UNIQ],
                  # C02/C17: exactly the given targets whose name matches one of the patterns
                  ensures=["forall(lambda t: (t in result) == (t in targets and %s), Target)" % NAMEPRED], serves=S)
+    IFR = "setof(lambda t: t in targets and Pred(self, t), Target)"
+    eng.contract("dispatch:NameFilter.apply", body_of="gwf.filtering:NameFilter.apply", self_type=NF,
+                 params={"self": NF, "targets": TS}, returns=TS, locals={"target_name_map": T.DictT(vc.Name, vc.Target)},
+                 requires=[UNIQ, "self.kind == 0"],
+                 ensures=["forall(lambda t: (t in result) == (t in targets and Pred(self, t)), Target)"], serves=S,
+                 note="dynamic dispatch of iface:Filter.apply to NameFilter")
+    eng.contract("dispatch:EndpointFilter.apply", body_of="gwf.filtering:ApplyMixin.apply", self_type=EF,
+                 params={"self": EF, "targets": TS}, returns=TS,
+                 requires=["self.kind == 1", "self.mode == 'exclude' or self.mode == 'include'"],
+                 ensures=["forall(lambda t: (t in result) == (t in targets and Pred(self, t)), Target)"], serves=S,
+                 note="dynamic dispatch of iface:Filter.apply to EndpointFilter")
     eng.contract("gwf.filtering:filter_names", params={"targets": TS, "patterns": LP}, returns=TS, requires=[UNIQ],
                  modifies=["NameFilter.patterns"],
                  ensures=["forall(lambda t: (t in result) == (t in targets and any(Matches(t.name, p) for p in patterns)), Target)"],
